@@ -23,7 +23,7 @@ import (
 
 const symBase = `syntax = "proto2";
 package p;
-message Ext { extensions 1 to 100; }
+message Ext { extensions 1 to 100; message In { extensions 1 to 100; } }
 message Ext2 { extensions 1 to 100; }
 `
 
@@ -83,7 +83,7 @@ func genSymPool(t *rapid.T, n int) []symFile {
 		ne := gen.Uniform(t, 3, "next")
 		for k := 0; k < ne; k++ {
 			en := fmt.Sprintf("e%d_%d", i, k)
-			fmt.Fprintf(&sb, "extend .p.%s { optional int32 %s = %d; }\n", gen.Pick(t, []string{"Ext", "Ext", "Ext2"}, "extendee"), en, 1+gen.Uniform(t, 3, "tag"))
+			fmt.Fprintf(&sb, "extend .p.%s { optional int32 %s = %d; }\n", gen.Pick(t, []string{"Ext", "Ext", "Ext2", "Ext.In", "Ext.In"}, "extendee"), en, 1+gen.Uniform(t, 3, "tag"))
 		}
 		pool = append(pool, symFile{Name: fmt.Sprintf("f%d.proto", i), Text: sb.String()})
 	}
@@ -246,6 +246,7 @@ func c17Check(c c17Case, r *ev.Rec) error {
 	for _, tag := range []string{"1", "2", "3", "4"} {
 		extUniverse[[2]string{"p.Ext", tag}] = true
 		extUniverse[[2]string{"p.Ext2", tag}] = true
+		extUniverse[[2]string{"p.Ext.In", tag}] = true
 	}
 	// what is handed to Import: the linker's own results, or plain descriptors built from their protos
 	var baseFD protoreflect.FileDescriptor = base
@@ -276,9 +277,14 @@ func c17Check(c c17Case, r *ev.Rec) error {
 			fds[i] = gf
 		}
 	}
+	var lenientSaw []string // what the accept-everything reporter of the current step was told
 	handlerFor := func(step int) *reporter.Handler {
+		lenientSaw = nil
 		if step < len(c.Lenient) && c.Lenient[step] {
-			return reporter.NewHandler(reporter.NewReporter(func(reporter.ErrorWithPos) error { return nil }, nil))
+			return reporter.NewHandler(reporter.NewReporter(func(e reporter.ErrorWithPos) error {
+				lenientSaw = append(lenientSaw, e.Error())
+				return nil
+			}, nil))
 		}
 		return reporter.NewHandler(nil)
 	}
@@ -368,7 +374,10 @@ func c17Check(c c17Case, r *ev.Rec) error {
 					leak = n
 				}
 			}
-			if leak != "" && strings.Contains(err.Error(), "already defined as a package") && r.Known("failed-import-leaves-package-registered", where) {
+			// (with an accept-everything reporter Import returns the generic "invalid source" error: what the
+			// collision was is in what the reporter was told)
+			told := err.Error() + "\n" + strings.Join(lenientSaw, "\n")
+			if leak != "" && strings.Contains(told, "already defined as a package") && r.Known("failed-import-leaves-package-registered", where) {
 				// adopt the implementation's outcome and carry on
 				for _, p := range infos[op].pkgs {
 					if _, ok := model.syms[p]; !ok {
@@ -438,7 +447,7 @@ func sortedExts(m map[[2]string]bool) [][2]string {
 
 func TestC17_History(t *testing.T) {
 	ev.Run(t, ev.Spec[c17Case]{ID: "C17", Name: "History", Quick: 800, Thorough: 40000,
-		Rule: "a pool of 2-5 small files over packages {none, p, p.q, r, p.A} declaring messages/enums/services named A, B, q, C and extensions of two shared messages with tags 1-3 (so name, package-vs-element and extension-number collisions are common), each compiled separately against one shared base file; a history of 2-10 imports (with re-imports) into ONE Symbols table, handing Import either the linker's own results or plain descriptors built with protodesc.NewFile, as they are, wrapped by linker.NewFileRecursive, or (for the base file, which is always in the table already) as the File returned by FindImportByPath and as the FileImport value of an import list, each import with a fail-fast or an accept-everything reporter; enum values may be named like another file's element; oracle: a reference table (map of names and extension numbers, updated only on successful imports) predicts whether each import collides, and after EVERY step Lookup of every name in the universe and LookupExtension of every (message, tag) agree with the reference table - in particular a failed import adds nothing and fails again when repeated; non-trivial = a failed import followed by lookups and by a re-import of the same file; distinct by pool+history",
+		Rule: "a pool of 2-5 small files over packages {none, p, p.q, r, p.A} declaring messages/enums/services named A, B, q, C and extensions of two shared messages and of a message nested in one of them with tags 1-3 (so name, package-vs-element and extension-number collisions are common), each compiled separately against one shared base file; a history of 2-10 imports (with re-imports) into ONE Symbols table, handing Import either the linker's own results or plain descriptors built with protodesc.NewFile, as they are, wrapped by linker.NewFileRecursive, or (for the base file, which is always in the table already) as the File returned by FindImportByPath and as the FileImport value of an import list, each import with a fail-fast or an accept-everything reporter; enum values may be named like another file's element; oracle: a reference table (map of names and extension numbers, updated only on successful imports) predicts whether each import collides, and after EVERY step Lookup of every name in the universe and LookupExtension of every (message, tag) agree with the reference table - in particular a failed import adds nothing and fails again when repeated; non-trivial = a failed import followed by lookups and by a re-import of the same file; distinct by pool+history",
 		Gen: func(t *rapid.T) c17Case {
 			n := 2 + gen.Uniform(t, 4, "npool")
 			c := c17Case{Pool: genSymPool(t, n), Generic: gen.Pct(t, 35, "generic")}
